@@ -330,6 +330,7 @@ func main() {
 	run.Def(M, "seq", runSeq)
 	run.Def(M, "behave", runBehave)
 	run.Def(M, "scope", runScope)
+	run.Def(M, "error-kind", runErrKind)
 	M.Gen = generate
 	run.Main(M)
 }
@@ -385,6 +386,8 @@ func generate(w *run.W) {
 			}
 		}
 	}
+
+	genErrKind(w, mine)
 
 	// (d) scoping
 	nsc := w.Pick(6000, 60000)
